@@ -19,7 +19,8 @@ VBpe == [fam |-> "bpe",
          score |-> <<>>, nbyte |-> 0]
 \* a, b, blank, ~, DEL, <, s, >, e-acute, soft hyphen, emoji, no-break space, inverted !, 0x01, newline
 UnitsBpe == << <<97>>, <<98>>, <<32>>, <<126>>, <<127>>, <<60>>, <<115>>, <<62>>, <<195, 169>>, <<194, 173>>,
-               <<240, 159, 152, 128>>, <<194, 160>>, <<194, 161>>, <<1>>, <<10>> >>
+               <<240, 159, 152, 128>>, <<194, 160>>, <<194, 161>>, <<1>>, <<10>>,
+               <<60, 115, 62>> >>                     \* the literal form of the control token as one unit (repeated occurrences)
 
 \* ------------------------------------------------------------------ sentencepiece
 Hex(d) == IF d < 10 THEN 48 + d ELSE 55 + d
@@ -33,7 +34,8 @@ VSpm == [fam |-> "spm",
          score |-> [i \in 1..256 |-> 0] \o <<-9, -10, -10, -1, -2, -3, -4, -10, -10, -10, -5, -10, -4, -2, -6>> \o <<0>>,
          nbyte |-> 256]
 \* a, b, blank, e-acute, emoji, <, s, >, ~, newline, euro sign, combining acute
-UnitsSpm == << <<97>>, <<98>>, <<32>>, <<233>>, <<128512>>, <<60>>, <<115>>, <<62>>, <<126>>, <<10>>, <<8364>>, <<769>> >>
+UnitsSpm == << <<97>>, <<98>>, <<32>>, <<233>>, <<128512>>, <<60>>, <<115>>, <<62>>, <<126>>, <<10>>, <<8364>>, <<769>>,
+               <<60, 115, 62>> >>
 \* plus the literal form of a byte token (pinned behaviour: it is looked up like any piece)
 UnitsSpmLiteral == UnitsSpm \o << ByteSurface(65) >>
 ===============================================================================
